@@ -178,13 +178,18 @@ def make_config(kind, name="app", version="1.2.3"):
     return cfg
 
 
-def build_command_config(cmd, handler_for, path, skip=None):
+def build_command_config(cmd, handler_for, path, skip=None, fluent=False, into=None):
+    """fluent: the configuration is written with the create_command / create_sub_command / add_aliases style of the
+    API instead of CommandConfig(...) + add_sub_command_config; 'into' is the configuration object to fill."""
     from clikit.api.args.format import Argument, Option
     from clikit.api.config.command_config import CommandConfig
 
-    cc = CommandConfig(cmd["name"])
-    for a in cmd["aliases"]:
-        cc.add_alias(a)
+    cc = into if into is not None else CommandConfig(cmd["name"])
+    if fluent and cmd["aliases"]:
+        cc.add_aliases(list(cmd["aliases"]))
+    else:
+        for a in cmd["aliases"]:
+            cc.add_alias(a)
     if cmd.get("desc") is not None:
         cc.set_description(cmd["desc"])
     if cmd.get("help"):
@@ -198,6 +203,8 @@ def build_command_config(cmd, handler_for, path, skip=None):
         cc.hide()
     if k == "disabled":
         cc.disable()
+    elif fluent:
+        cc.enable()
     if cmd.get("lenient"):
         cc.enable_lenient_args_parsing()
     for o in cmd["opts"]:
@@ -212,11 +219,14 @@ def build_command_config(cmd, handler_for, path, skip=None):
     for s in cmd["subs"]:
         if skip is not None and mypath + [s["name"]] == skip:
             continue
-        cc.add_sub_command_config(build_command_config(s, handler_for, mypath, skip))
+        if fluent:
+            build_command_config(s, handler_for, mypath, skip, True, into=cc.create_sub_command(s["name"]))
+        else:
+            cc.add_sub_command_config(build_command_config(s, handler_for, mypath, skip))
     return cc
 
 
-def build_app(tree, config_kind="bare", handler_for=None, configure=None, late=None):
+def build_app(tree, config_kind="bare", handler_for=None, configure=None, late=None, fluent=False):
     """late: path of one (plain, named) command that is left out of the configuration and added to the running
     application afterwards (add_command / add_sub_command), after some command lines were already resolved."""
     from clikit.console_application import ConsoleApplication
@@ -227,7 +237,10 @@ def build_app(tree, config_kind="bare", handler_for=None, configure=None, late=N
     for c in tree["commands"]:
         if late is not None and [c["name"]] == late:
             continue
-        cfg.add_command_config(build_command_config(c, handler_for, [], late))
+        if fluent:
+            build_command_config(c, handler_for, [], late, True, into=cfg.create_command(c["name"]))
+        else:
+            cfg.add_command_config(build_command_config(c, handler_for, [], late))
     if configure is not None:
         configure(cfg)
     app = ConsoleApplication(cfg)
@@ -364,4 +377,65 @@ def all_paths(tree, config_kind, include_disabled=False):
             walk(c["subs"], p)
 
     walk(top_commands(tree, config_kind), [])
+    return out
+
+
+# ----------------------------------------------------------------------------------- structure
+def structure_mismatches(app, tree, config_kind):
+    """Compare the structural queries of the built application (collections of all / named / default commands
+    on every level, their predicates, lookups by name and alias, parent links) with the tree description.
+    Returns a list of (what, expected, observed)."""
+    out = []
+
+    def names(coll):
+        return sorted(c.name for c in coll)
+
+    def level(owner, children, parent, where):
+        enabled = [c for c in children if is_enabled(c)]
+        if parent is None:
+            got = {"all": names(owner.commands), "named": names(owner.named_commands),
+                   "default": names(owner.default_commands),
+                   "has": [owner.has_commands(), owner.has_named_commands(), owner.has_default_commands()]}
+            has_one = lambda n: owner.has_command(n)  # noqa: E731
+            get_named = lambda n: owner.named_commands.get(n)  # noqa: E731
+            get_default = lambda n: owner.default_commands.get(n)  # noqa: E731
+        else:
+            got = {"all": names(owner.sub_commands), "named": names(owner.named_sub_commands),
+                   "default": names(owner.default_sub_commands),
+                   "has": [owner.has_sub_commands(), owner.has_named_sub_commands(), owner.has_default_sub_commands()]}
+            has_one = lambda n: n in owner.sub_commands  # noqa: E731
+            get_named = owner.get_named_sub_command
+            get_default = owner.get_default_sub_command
+        want = {"all": sorted(c["name"] for c in enabled),
+                "named": sorted(c["name"] for c in enabled if is_named(c)),
+                "default": sorted(c["name"] for c in enabled if is_default(c))}
+        want["has"] = [bool(want["all"]), bool(want["named"]), bool(want["default"])]
+        if got != want:
+            out.append((where + ": collections", want, got))
+        if has_one("zz-no-such-command"):
+            out.append((where + ": has('zz-no-such-command')", False, True))
+        for c in children:
+            if not is_enabled(c):
+                if c["name"] not in [x["name"] for x in enabled] and has_one(c["name"]):
+                    out.append((where + ": disabled %s present" % c["name"], False, True))
+                continue
+            if not has_one(c["name"]):
+                out.append((where + ": has(%s)" % c["name"], True, False))
+                continue
+            real = (owner.get_command(c["name"]) if parent is None else owner.get_sub_command(c["name"]))
+            if is_named(c):
+                for key in [c["name"]] + list(c["aliases"]):
+                    if get_named(key) is not real:
+                        out.append((where + ": named lookup %r" % key, c["name"], "another object"))
+            if is_default(c) and get_default(c["name"]) is not real:
+                out.append((where + ": default lookup %r" % c["name"], c["name"], "another object"))
+            facts = {"name": real.name, "aliases": sorted(real.aliases), "parent": real.parent_command is parent,
+                     "full_name": real.full_name}
+            want_facts = {"name": c["name"], "aliases": sorted(c["aliases"]), "parent": True,
+                          "full_name": (where + " " + c["name"]).strip()}
+            if facts != want_facts:
+                out.append((where + ": command %s" % c["name"], want_facts, facts))
+            level(real, c["subs"], real, (where + " " + c["name"]).strip())
+
+    level(app, top_commands(tree, config_kind), None, "")
     return out
